@@ -33,6 +33,7 @@ func widen(c *engine.Ctx, fixed []tuple, ds, rs []named) {
 	nm2 := named{"n-2", new(big.Int).Sub(ref.N, big.NewInt(2))}
 	large := tuple{nm2, named{"chainD", chainScalar("d")}, named{"chainR", chainScalar("r")}, nm2}
 	tuples := []tuple{gbt, small, large}
+	runDestroy(c, tuples)
 
 	// ---- 7: every KDF block-count class (key length) through both implementations
 	for ti, tp := range tuples {
